@@ -25,6 +25,8 @@ type SnapOpts struct {
 	// directory entry itself and plain files directly in `.sgwtmp/` (unreferenced
 	// temp files). `.sgwtmp/multipart/**` is kept (uploads are API state).
 	IgnoreTmp bool
+	// OnlyTmpFiles records nothing but the temp files IgnoreTmp drops (what an upload leaves behind in them).
+	OnlyTmpFiles bool
 }
 
 func describe(path string, d fs.DirEntry) string {
@@ -79,27 +81,37 @@ func TakeSnap(o SnapOpts, roots map[string]string) Snap {
 				return nil
 			}
 			rel, _ := filepath.Rel(root, p)
-			if o.IgnoreTmp {
+			if o.IgnoreTmp || o.OnlyTmpFiles {
 				parts := strings.Split(rel, string(filepath.Separator))
+				class := ""
 				for i, c := range parts {
-					if c == ".sgwtmp" {
+					if c == ".sgwtmp" && class == "" {
 						if i == len(parts)-1 {
-							return nil // the directory entry itself
+							class = "dir" // the directory entry itself
 						}
 						if i == len(parts)-2 && !d.IsDir() {
-							return nil // plain temp file directly inside
+							class = "tmpfile" // plain temp file directly inside
 						}
 						if (len(parts) == i+4 || (len(parts) == i+5 && !allDigits(parts[i+4]))) && parts[i+1] == "multipart" && !d.IsDir() {
-							return nil // named temp file of a part upload inside the upload directory (never listed as a part)
+							class = "tmpfile" // named temp file of a part upload inside the upload directory (never listed as a part)
 						}
 						if i == len(parts)-2 && d.IsDir() && parts[i+1] == "multipart" {
 							// keep; but an empty multipart dir is bookkeeping too
 							ents, _ := os.ReadDir(p)
 							if len(ents) == 0 {
-								return nil
+								class = "dir"
 							}
 						}
 					}
+				}
+				if o.OnlyTmpFiles {
+					if class == "tmpfile" {
+						s[label+":"+rel] = describe(p, d)
+					}
+					return nil
+				}
+				if class != "" {
+					return nil
 				}
 			}
 			s[label+":"+rel] = describe(p, d)
